@@ -114,6 +114,10 @@ def gen_world(rng: random.Random):
                       "stable_mode": rng.random() < 0.25, "near_twins": rng.random() < 0.25,
                       "cov": variant == "SSI" and rng.random() < 0.25})
             w["ordmin"] = rng.choice([0, 0, 0, 1, 2, w["ncols"] // 2])
+    if variant in ("SSI", "pLSCF") and rng.random() < 0.4:
+        # the tolerance of the extraction step: picks are exact table entries, so every legal value - 0 included - must
+        # extract exactly the picked poles
+        w["mpe_kw"] = {"rtol": rng.choice([0.0, 0.0, 1e-6, 1e-3, 5e-2, 0.5])}
     r = rng.random()
     if r < 0.5:
         w["freqlim"] = None
